@@ -23,6 +23,17 @@ PROPS = {
     },
 }
 
+_PARSE_NOTE = "assumed: vstd specs (Vec, Seq, Option, IteratorSpec prophecy model); dependency stubs DecodedChar/Span/Meta/SmallVec/SmallString/NumberBuf::new_unchecked (contracts read off their sources); char::to_digit / char::from_u32 / char ordering (std contracts); Option::transpose; derived Default of CodeMap; usize is 64-bit; total input byte length fits usize. Composition of the fragment parsers in Value::parse_in (L3) and the entry-point adapters (L4) are not yet under contract."
+for _pid, _title, _text in [
+    ("C01", "Strict acceptance", "Unbounded proof per lexical/structural fragment parser that it accepts exactly the RFC 8259 production it implements (literals, number automaton, string grammar, begin/end/separator fragments), for every input stream and every option record."),
+    ("C02", "Faithful decoding", "Unbounded proof that the number parser keeps the consumed characters byte for byte (all ASCII), that parse_hex4 computes the code unit, and that the string parser returns exactly the RFC 8259 section 7 decoding (escapes, surrogate pairs) of the consumed text."),
+    ("C03", "Totality, single pass", "Side obligations of the same proofs: no panic (end_fragment index valid, unwrap safe), no arithmetic overflow, every loop of the lexical layer terminates, the stream is only ever advanced (rest() shrinks by skip), no recursion in the extracted parser functions."),
+    ("C05", "Code map", "Unbounded proof of the fragment discipline: begin_fragment reserves exactly one entry at the current byte, end_fragment(i) closes entry i with span end = current byte and volume = entries since i; every leaf parser appends exactly one closed entry spanning its significant characters."),
+    ("C07", "Error positions", "The Err branch of every contract: Unexpected carries the byte offset and character of the first item that cannot continue the production; stream errors carry the offset of the bad item; surrogate errors carry the code units and a span inside the offending escapes."),
+    ("C12", "Lenient options", "SmallString::parse_in is proved equal to the option-parametric decoder str_run for all four option records; every other contract is stated for arbitrary options and ensures options are untouched (frame)."),
+]:
+    PROPS[_pid] = {"units": ["parse"], "kani": [], "replay": [], "title": _title, "level": "proof", "level_text": _text, "level_note": _PARSE_NOTE, "design_ref": "DESIGN.md §6.1"}
+
 NOT_APPLICABLE = {
     "C16": "serde Serializer/Deserializer plumbing: every deciding fact (derive expansion, number formatting, serde_json's shape) lives in dependencies whose behaviour would be assumed; no contract within reach decides it (DESIGN.md §7)",
     "C17": "same as C16: the deciding case analysis is inside json-number's Serialize/Deserialize; the in-repo ingredient (duplicate keys collapse through Object::insert) is covered by C06 (DESIGN.md §7)",
